@@ -2248,7 +2248,10 @@ fn savefile_derive_crate_withschema(input: DeriveInput) -> TokenStream {
             }
 
             let discriminant_size = enum_size.discriminant_size;
-            let has_explicit_repr = enum_size.repr_c;
+            // The schema only records the index of each variant, not the values of explicit
+            // discriminants ('A = 5'). Two enums with different values are therefore
+            // indistinguishable, and the memory representation must be considered unknown.
+            let has_explicit_repr = enum_size.repr_c && !enum1.variants.iter().any(|v| v.discriminant.is_some());
 
             quote! {
                 #field_offset_impl
